@@ -307,7 +307,15 @@ class World(object):
         if t == "name":
             return self.name(iv["n"])
         if t == "nlit":
-            return Literal(self.lexical(iv["T"], iv["u"] if iv["T"] == "anyURI" else iv["v"]), XSD_T[iv["T"]])
+            dt = XSD_T[iv["T"]]
+            if self.salt % 3 == 2:
+                # the same datatype URI under another prefix (what identifies a datatype is its URI)
+                dt = QualifiedName(Namespace("xs", dt.namespace.uri), dt.localpart)
+            return Literal(self.lexical(iv["T"], iv["u"] if iv["T"] == "anyURI" else iv["v"]), dt)
+        if t == "isolit":
+            # the ISO text of a datetime wrapped in a Literal (typed xsd:string, or untyped)
+            iso = self.voc.value("dt", iv["v"]).isoformat()
+            return Literal(iso, XSD_T["string"]) if iv["typed"] else Literal(iso)
         if t == "plit":
             return Literal(self.voc.value("str", iv["v"]))
         if t == "iso":
